@@ -44,7 +44,8 @@ static int maybe_fault(void)
     return 0;
   }
   int e = nondet_int();
-  __CPROVER_assume(e > 0 && e < 134);
+  /* no call reproc makes can fail with ETIMEDOUT (poll reports a timeout as 0) */
+  __CPROVER_assume(e > 0 && e < 134 && e != ETIMEDOUT);
   return e;
 }
 
@@ -67,6 +68,9 @@ bool ghost_wf(void)
    value the harness gave them (or 0). */
 void ghost_init(void)
 {
+  /* DFCC makes every static object nondeterministic: start from zero */
+  g = (struct ghost){ 0 };
+  g.plan_invalid_at = -1;
   g.open = nondet_uint();
   g.lib = nondet_uint() & g.open;
   g.cloexec = nondet_uint() & g.open;
@@ -75,7 +79,8 @@ void ghost_init(void)
   g.wr = nondet_uint() & g.open;
   g.now = nondet_long();
   __CPROVER_assume(g.now > ((int64_t) 1 << 32) && g.now < ((int64_t) 1 << 52));
-  g.err = nondet_int();
+  g.err = nondet_int(); /* errno: stale value of some earlier call */
+  __CPROVER_assume(g.err >= 0 && g.err < 134);
   g.sigmask = nondet_ulong();
   g.disp_default = nondet_ulong();
   g.cfg_nofault = nondet_bool();
@@ -331,8 +336,8 @@ ssize_t verif_read(int fd, void *buf, size_t n)
   }
   int e = maybe_fault();
   if (e) {
-    if (e == EAGAIN && blocking) {
-      e = EINTR; /* EAGAIN only from a nonblocking descriptor */
+    if ((e == EAGAIN && blocking) || e == EPIPE) {
+      e = EINTR; /* EAGAIN only from a nonblocking descriptor; read never EPIPE */
     }
     fault(e);
     g.rd_errno = e;
@@ -426,11 +431,19 @@ int verif_poll(struct pollfd *fds, nfds_t nfds, int timeout)
   if (timeout != 0) {
     g.may_block = true;
   }
-  int e = maybe_fault();
-  if (e) {
-    fault(e);
-    g.poll_ret = -1;
-    return -1;
+  if (g.plan_on) {
+    bool next = g.plan_pos < g.plan_n && g.plan_pos < 8 && g.plan_kind[g.plan_pos] == PLAN_WAIT;
+    V_ASSERT("C07+C15/stop.wait_is_next_planned_step", next);
+    if (next) {
+      int t = g.plan_arg[g.plan_pos];
+      int want = t;
+      if (t == -2) { /* until-deadline */
+        want = g.plan_deadline == -1 ? -1
+               : g.plan_deadline > g.now ? (int) (g.plan_deadline - g.now) : 0;
+      }
+      V_ASSERT("C07+C08+C15/stop.wait_uses_action_timeout", timeout == want);
+    }
+    g.plan_pos++;
   }
   int count = 0;
   for (nfds_t i = 0; i < nfds; i++) {
@@ -452,6 +465,14 @@ int verif_poll(struct pollfd *fds, nfds_t nfds, int timeout)
     if (re != 0) {
       count++;
     }
+  }
+  /* the call may fail as a whole (revents are then unspecified) */
+  int e = maybe_fault();
+  if (e) {
+    fault(e);
+    g.poll_ret = -1;
+    g.poll_ready = 0;
+    return -1;
   }
   /* an infinite poll returns only with an event */
   __CPROVER_assume(count > 0 || timeout >= 0);
@@ -508,6 +529,9 @@ pid_t verif_waitpid(pid_t pid, int *wstatus, int options)
   }
   bool own = pid > 0 && pid == g.child_pid && g.child_live && !g.child_reaped;
   V_ASSERT("C06/os.waitpid.own_unreaped_child", own);
+  if (g.plan_on) {
+    V_ASSERT("C01+C07/stop.reap_only_after_exit_seen", g.poll_ret > 0);
+  }
   if (!own) {
     g.err = ECHILD;
     return -1;
@@ -542,6 +566,19 @@ int verif_kill(pid_t pid, int sig)
   }
   bool own = pid > 0 && pid == g.child_pid && g.child_live && !g.child_reaped;
   V_ASSERT("C06/os.kill.own_unreaped_child", own);
+  if (g.plan_on) {
+    bool next = g.plan_pos < g.plan_n && g.plan_pos < 8 && g.plan_kind[g.plan_pos] == PLAN_KILL;
+    V_ASSERT("C07+C15/stop.signal_is_next_planned_step", next && g.plan_arg[g.plan_pos] == sig);
+    /* escalation only after the preceding wait expired (and, for an
+       until-deadline wait, only once the deadline has passed) */
+    if (g.plan_pos > 0 && g.plan_pos <= 8 && g.plan_kind[g.plan_pos - 1] == PLAN_WAIT) {
+      V_ASSERT("C07+C15/stop.escalates_only_after_wait_expired", g.poll_ret == 0);
+      V_ASSERT("C15/stop.no_signal_before_deadline",
+               g.plan_arg[g.plan_pos - 1] != -2 ||
+                   (g.plan_deadline != -1 && g.now >= g.plan_deadline));
+    }
+    g.plan_pos++;
+  }
   int e = maybe_fault();
   if (e) {
     fault(e);
@@ -731,19 +768,19 @@ int verif_sigaction(int sig, const struct sigaction *act, struct sigaction *old)
 
 int verif_clock_gettime(clockid_t clk, struct timespec *ts)
 {
-  (void) clk;
   os_call();
-  /* non-decreasing virtual clock: choose the new reading, then derive now */
+  V_ASSERT("C08/os.clock.realtime", clk == CLOCK_REALTIME);
+  /* the kernel answers with some timespec; the virtual millisecond clock g.now
+     is *defined* as that instant in ms, and never goes back */
   long sec = nondet_long();
-  long ms = nondet_long();
-  long sub = nondet_long();
-  __CPROVER_assume(sec > 0 && sec < ((long) 1 << 43));
-  __CPROVER_assume(ms >= 0 && ms < 1000 && sub >= 0 && sub < 1000000);
-  int64_t n = (int64_t) sec * 1000 + ms;
+  long nsec = nondet_long();
+  __CPROVER_assume(sec > 0 && sec < ((long) 1 << 42));
+  __CPROVER_assume(nsec >= 0 && nsec < 1000000000L);
+  int64_t n = sec * 1000 + nsec / 1000000;
   __CPROVER_assume(n >= g.now && n - g.now <= 0x7fffffff);
   g.now = n;
   ts->tv_sec = sec;
-  ts->tv_nsec = ms * 1000000 + sub;
+  ts->tv_nsec = nsec;
   return 0;
 }
 
